@@ -10533,20 +10533,33 @@ CK_RV SoftHSM::deriveDH
 				// Get the KCV
 				switch (keyType)
 				{
+					// The check value is computed by the concrete key class over the value actually stored
 					case CKK_GENERIC_SECRET:
-						secret->setBitLen(byteLen * 8);
-						plainKCV = secret->getKeyCheckValue();
+					{
+						SymmetricKey kcvKey;
+						kcvKey.setKeyBits(secretValue);
+						kcvKey.setBitLen(byteLen * 8);
+						plainKCV = kcvKey.getKeyCheckValue();
 						break;
+					}
 					case CKK_DES:
 					case CKK_DES2:
 					case CKK_DES3:
-						secret->setBitLen(byteLen * 7);
-						plainKCV = ((DESKey*)secret)->getKeyCheckValue();
+					{
+						DESKey kcvKey;
+						kcvKey.setKeyBits(secretValue);
+						kcvKey.setBitLen(byteLen * 7);
+						plainKCV = kcvKey.getKeyCheckValue();
 						break;
+					}
 					case CKK_AES:
-						secret->setBitLen(byteLen * 8);
-						plainKCV = ((AESKey*)secret)->getKeyCheckValue();
+					{
+						AESKey kcvKey;
+						kcvKey.setKeyBits(secretValue);
+						kcvKey.setBitLen(byteLen * 8);
+						plainKCV = kcvKey.getKeyCheckValue();
 						break;
+					}
 					default:
 						bOK = false;
 						break;
@@ -10886,20 +10899,33 @@ CK_RV SoftHSM::deriveECDH
 				// Get the KCV
 				switch (keyType)
 				{
+					// The check value is computed by the concrete key class over the value actually stored
 					case CKK_GENERIC_SECRET:
-						secret->setBitLen(byteLen * 8);
-						plainKCV = secret->getKeyCheckValue();
+					{
+						SymmetricKey kcvKey;
+						kcvKey.setKeyBits(secretValue);
+						kcvKey.setBitLen(byteLen * 8);
+						plainKCV = kcvKey.getKeyCheckValue();
 						break;
+					}
 					case CKK_DES:
 					case CKK_DES2:
 					case CKK_DES3:
-						secret->setBitLen(byteLen * 7);
-						plainKCV = ((DESKey*)secret)->getKeyCheckValue();
+					{
+						DESKey kcvKey;
+						kcvKey.setKeyBits(secretValue);
+						kcvKey.setBitLen(byteLen * 7);
+						plainKCV = kcvKey.getKeyCheckValue();
 						break;
+					}
 					case CKK_AES:
-						secret->setBitLen(byteLen * 8);
-						plainKCV = ((AESKey*)secret)->getKeyCheckValue();
+					{
+						AESKey kcvKey;
+						kcvKey.setKeyBits(secretValue);
+						kcvKey.setBitLen(byteLen * 8);
+						plainKCV = kcvKey.getKeyCheckValue();
 						break;
+					}
 					default:
 						bOK = false;
 						break;
@@ -11240,20 +11266,33 @@ CK_RV SoftHSM::deriveEDDSA
 				// Get the KCV
 				switch (keyType)
 				{
+					// The check value is computed by the concrete key class over the value actually stored
 					case CKK_GENERIC_SECRET:
-						secret->setBitLen(byteLen * 8);
-						plainKCV = secret->getKeyCheckValue();
+					{
+						SymmetricKey kcvKey;
+						kcvKey.setKeyBits(secretValue);
+						kcvKey.setBitLen(byteLen * 8);
+						plainKCV = kcvKey.getKeyCheckValue();
 						break;
+					}
 					case CKK_DES:
 					case CKK_DES2:
 					case CKK_DES3:
-						secret->setBitLen(byteLen * 7);
-						plainKCV = ((DESKey*)secret)->getKeyCheckValue();
+					{
+						DESKey kcvKey;
+						kcvKey.setKeyBits(secretValue);
+						kcvKey.setBitLen(byteLen * 7);
+						plainKCV = kcvKey.getKeyCheckValue();
 						break;
+					}
 					case CKK_AES:
-						secret->setBitLen(byteLen * 8);
-						plainKCV = ((AESKey*)secret)->getKeyCheckValue();
+					{
+						AESKey kcvKey;
+						kcvKey.setKeyBits(secretValue);
+						kcvKey.setBitLen(byteLen * 8);
+						plainKCV = kcvKey.getKeyCheckValue();
 						break;
+					}
 					default:
 						bOK = false;
 						break;
@@ -11835,20 +11874,33 @@ CK_RV SoftHSM::deriveSymmetric
 				secret->setKeyBits(secretValue);
 				switch (keyType)
 				{
+					// The check value is computed by the concrete key class over the value actually stored
 					case CKK_GENERIC_SECRET:
-						secret->setBitLen(byteLen * 8);
-						plainKCV = secret->getKeyCheckValue();
+					{
+						SymmetricKey kcvKey;
+						kcvKey.setKeyBits(secretValue);
+						kcvKey.setBitLen(byteLen * 8);
+						plainKCV = kcvKey.getKeyCheckValue();
 						break;
+					}
 					case CKK_DES:
 					case CKK_DES2:
 					case CKK_DES3:
-						secret->setBitLen(byteLen * 7);
-						plainKCV = ((DESKey*)secret)->getKeyCheckValue();
+					{
+						DESKey kcvKey;
+						kcvKey.setKeyBits(secretValue);
+						kcvKey.setBitLen(byteLen * 7);
+						plainKCV = kcvKey.getKeyCheckValue();
 						break;
+					}
 					case CKK_AES:
-						secret->setBitLen(byteLen * 8);
-						plainKCV = ((AESKey*)secret)->getKeyCheckValue();
+					{
+						AESKey kcvKey;
+						kcvKey.setKeyBits(secretValue);
+						kcvKey.setBitLen(byteLen * 8);
+						plainKCV = kcvKey.getKeyCheckValue();
 						break;
+					}
 					default:
 						bOK = false;
 						break;
